@@ -17,12 +17,12 @@ CHECKS = {
    "DESIGN.md 6/C14"),
  "C04": ("inproc", "exploration",
    "offline replay of recorded client/origin histories against the cache-entry reference model under a virtual clock; directed hook-point schedule; interval-sound monitor under a ticking clock",
-   "Generated timed histories (lifetimes 1..2^31-1, origin Age none/0/1/T-1, advances landing before/at/after the expiry second, bursts of 1-8) replayed exactly against the entry model in both directions (fresh => hit of the epoch's fetch with Age = elapsed, expired => exactly one refetch that replaces the entry); a directed schedule puts a clock tick between lookup and answer (with and without a refetch in between); a concurrent mode with a ticking clock and a hostile mode in which every clock reading advances the clock are judged with interval bounds. Half of the histories come from an origin whose own Date header is 45 s or a day away from the real clock. One history in three interleaves HEAD requests on the same URI (their own key, entry and lifetime). Histories also run against a cache whose store keeps records past their expiry and against a tiny cache that is evicted between steps; lifetimes also come from s-maxage with a contradicting max-age.",
+   "Generated timed histories (lifetimes 1..2^31-1, origin Age none/0/1/T-1, advances landing before/at/after the expiry second, bursts of 1-8) replayed exactly against the entry model in both directions (fresh => hit of the epoch's fetch with Age = elapsed, expired => exactly one refetch that replaces the entry); a directed schedule puts a clock tick between lookup and answer (with and without a refetch in between); a concurrent mode with a ticking clock and a hostile mode in which every clock reading advances the clock are judged with interval bounds. One step in eight is preceded by a reload that changes the caches' restart-only options. Half of the histories come from an origin whose own Date header is 45 s or a day away from the real clock. One history in three interleaves HEAD requests on the same URI (their own key, entry and lifetime). Histories also run against a cache whose store keeps records past their expiry and against a tiny cache that is evicted between steps; lifetimes also come from s-maxage with a contradicting max-age.",
    "pike's only clock seam (cache.nowUnix) is virtualised by a tag-guarded hook; no eviction (cache 100000 >> keys); Age arithmetic when the origin sent its own Age is not judged; a premature refetch of a fresh entry is counted, not judged (that is C01)",
    "DESIGN.md 6/C04"),
  "C01": ("inproc", "exploration",
    "origin-side in-flight overlap monitor + per-epoch exactly-once accounting + porcupine linearizability of recorded histories; hook-point directed schedule; race detector",
-   "Bursts of 2-64 identical cold requests on 1-4 keys over 1-3 epochs with the fetch held at the origin until the hook counter shows every other request parked (so coalescing is really exercised), jitter at four hook points between pike's critical sections; directed schedules: expiry between a waiter's wake-up and its resumption while the next fetcher is in flight (the quantifier's case), expiry between the dispatcher lookup and the entry lookup, and clock jumps of 5 s to 1 h while a fetch is in flight followed by new arrivals; staggered clients with a concurrent clock advancer checked per key with porcupine; bursts whose one fetch fails after the upstream received it (no answer before the proxy timeout, connection reset, half a body): no client request may reach the upstream twice. Evidence lists parked waiters and distinct interleaving signatures.",
+   "Bursts of 2-64 identical cold GET (every fifth burst HEAD) requests on 1-4 keys over 1-3 epochs, some with an unsafe request on the same URI passing through during the fetch and a late request after it, with the fetch held at the origin until the hook counter shows every other request parked (so coalescing is really exercised), jitter at four hook points between pike's critical sections; directed schedules: expiry between a waiter's wake-up and its resumption while the next fetcher is in flight (the quantifier's case), expiry between the dispatcher lookup and the entry lookup, and clock jumps of 5 s to 1 h while a fetch is in flight followed by new arrivals; staggered clients with a concurrent clock advancer checked per key with porcupine; bursts whose one fetch fails after the upstream received it (no answer before the proxy timeout, connection reset, half a body): no client request may reach the upstream twice. Evidence lists parked waiters and distinct interleaving signatures.",
    "virtual clock and hook points (tag-guarded); no eviction or purge during a fetch (cache 100000 >> keys, asserted through the eviction hook); interleavings are those the stressors produce plus the directed one",
    "DESIGN.md 6/C01"),
  "C07": ("inproc", "exploration",
@@ -32,7 +32,7 @@ CHECKS = {
    "DESIGN.md 6/C07"),
  "C02": ("inproc", "fault_enumeration",
    "conservation monitor (every call event has a return event) + quiescent invariant on hooked entry state + follow-up probe, over enumerated fetch outcomes x waiter positions; goroutine dump only as witness",
-   "Enumerates 9 fetch outcomes (cacheable, uncacheable, 5xx, upstream protocol error, undecodable body = no response object, hang beyond ProxyTimeout, panic at the proxy hook, truncated upstream body = net/http abort panic, fetcher's client dropping its connection) x 7 waiter situations (parked; one waiter registered but not yet receiving while the completion runs; the same with a purge of the key; arriving after completion; a coalesced client dropping its connection; the fetching entry evicted from its shard; the cache clock jumping two minutes during the fetch followed by a late arrival), every second repeat the fetcher's own request carries Range / If-Range / If-None-Match / If-Modified-Since; then random outcome sequences across epochs on one key. Verdict: all requests returned, the fetch completion ran to its end (hook counters) with the entry lock free, entry status != fetching and no registered waiters at quiescence, each waiter either got the fetched response or made its own upstream contact, follow-up served normally.",
+   "Enumerates 9 fetch outcomes (cacheable, uncacheable, 5xx, upstream protocol error, undecodable body = no response object, hang beyond ProxyTimeout, panic at the proxy hook, truncated upstream body = net/http abort panic, header and half a body followed by silence, fetcher's client dropping its connection) x 7 waiter situations (parked; one waiter registered but not yet receiving while the completion runs; the same with a purge of the key; arriving after completion; a coalesced client dropping its connection; the fetching entry evicted from its shard; the cache clock jumping two minutes during the fetch followed by a late arrival), every second repeat the fetcher's own request carries Range / If-Range / If-None-Match / If-Modified-Since; then random outcome sequences across epochs on one key. Verdict: all requests returned, the fetch completion ran to its end (hook counters) with the entry lock free, entry status != fetching and no registered waiters at quiescence, each waiter either got the fetched response or made its own upstream contact, follow-up served normally.",
    "liveness restated as bounded progress at quiescence (20 s watchdog only triggers the state inspection); termination without ProxyTimeout against a never-answering upstream is not demanded",
    "DESIGN.md 6/C02"),
  "C18": ("inproc", "exploration",
@@ -47,7 +47,7 @@ CHECKS = {
    "DESIGN.md 6/C03"),
  "C13": ("inproc", "exploration",
    "decision-table monitor (reference table vs HTTPResponse.Fill and vs the running server) + compressor call counters (hook) + byte comparison with the best-compression profile",
-   "The table dimensions of the statement are enumerated completely at the Fill level (14 Accept-Encoding values incl. tokens that merely contain 'gzip' and weighted codings, 7 stored-variant subsets, 4 sizes around two thresholds, default/custom filter, 6 content types, direct and after Cacheable()) with random bodies per cell; end-to-end through servers with default and configured thresholds/filters (two of them with an 8-entry LRU over a store, earlier keys revisited after eviction; two reconfigured by a reload of the running server; text, repetitive and incompressible bodies; upstreams that answer gzip or br encoded themselves; lifetimes from 1 s to a day; hits on one stored version with one Accept-Encoding must always get the same encoding, over HTTP/1.1 and HTTP/1.0): compressor call counters around every hit (no per-request recompression) and around bursts of coalesced requests on cold compressible keys (exactly one gzip and one br run), stored variants byte-compared with the best-compression profile's output.",
+   "The table dimensions of the statement are enumerated completely at the Fill level (14 Accept-Encoding values incl. tokens that merely contain 'gzip' and weighted codings, 7 stored-variant subsets, 4 sizes around two thresholds, default/custom filter, 6 content types (end-to-end also values with parameters, sloppy parameter syntax and upper case), direct and after Cacheable()) with random bodies per cell; end-to-end through servers with default and configured thresholds/filters (two of them with an 8-entry LRU over a store, earlier keys revisited after eviction; two reconfigured by a reload of the running server; text, repetitive and incompressible bodies; upstreams that answer gzip or br encoded themselves; lifetimes from 1 s to a day; hits on one stored version with one Accept-Encoding must always get the same encoding, over HTTP/1.1 and HTTP/1.0): compressor call counters around every hit (no per-request recompression) and around bursts of coalesced requests on cold compressible keys (exactly one gzip and one br run), stored variants byte-compared with the best-compression profile's output.",
    "where the raw length and the lengths pike can see straddle the threshold both outcomes are accepted; Accept-Encoding without q-values",
    "DESIGN.md 6/C13"),
  "C05": ("inproc", "exploration",
@@ -77,7 +77,7 @@ CHECKS = {
    "DESIGN.md 6/C12"),
  "C10": ("inproc", "fault_enumeration",
    "online monitor over client results + scripted store call log + hooked entry state, under per-call store fault injection",
-   "Every store call draws from {ok, not-found, error, delay, value truncated, random bytes, bit flip in header region / elsewhere, status field overwritten, empty} over histories of bursts, expiry, purge and eviction on a 16-entry cache with a healthy origin. Judged: always 200 with the key's intact body, hits only of still-valid versions, a memory-resident fresh hit never reads the store, an undecodable record yields an ordinary fetching miss, nobody stranded and no entry left fetching (hooked state at quiescence). Finally the configured store cannot be opened at all (badger directory below a regular file, redis nobody listens on): the cache serves memory-only and keeps its entries when the unchanged configuration is applied again; with the store going down after start-up, responses are cached memory-only and a purge still empties the memory. Garbled values that still decode are classified by the harness decoding them itself and only taint the key.",
+   "Every store call draws from {ok, not-found, error, delay, value truncated, random bytes, bit flip in header region / elsewhere, status field overwritten, empty} over histories of bursts, expiry, purge and eviction on a 16-entry cache with a healthy origin. Judged: always 200 with the key's intact body, hits only of still-valid versions, a memory-resident fresh hit never reads the store, an undecodable record yields an ordinary fetching miss, nobody stranded and no entry left fetching (hooked state at quiescence). Finally the configured store cannot be opened at all (badger directory below a regular file, redis nobody listens on): the cache serves memory-only and keeps its entries when the unchanged configuration is applied again; with the store going down after start-up, responses are cached memory-only, a purge still empties the memory and nothing purged turns up in the store after it came back. Garbled values that still decode are classified by the harness decoding them itself and only taint the key.",
    "well-formed-but-altered records cannot be detected without an integrity field (known finding class undetectable-corruption); a purge whose store delete failed is not judged afterwards",
    "DESIGN.md 6/C10"),
  "C08": ("proc", "fault_enumeration",
